@@ -3674,11 +3674,17 @@ impl LineBuf {
 					}
 				}
 				// We want the position of the newline, or start of buffer
+				let first_line = start == 0;
 				start = start.saturating_sub(1).min(self.cursor.max);
 				match anchor {
 					Anchor::After => {
 						self.cursor.set(end);
 						self.insert_at_cursor('\n');
+					}
+					Anchor::Before if first_line => {
+						// Nothing before the first line: the new line is the one the line break ends
+						self.insert_at(0, '\n');
+						self.cursor.set(0);
 					}
 					Anchor::Before => {
 						self.cursor.set(start);
